@@ -376,6 +376,14 @@ def computeGraph (g : List NodeDef) (root : Nat) (fuel : Nat) : Except GErr (Lis
     | .ok (vs, st') => .ok (vs.flatten, st')
     | .error e => .error e
 
+/-- `StreamNode.compute` as shipped: `np.concatenate(list(self._stream))`, i.e. what is LEFT of the
+iterator after the constructor pulled buffer 0 (`ValueError` = none when nothing is left).
+Repaired code uses `get_iter` like every other node (`computeGraph`). -/
+def streamComputeOld (chunks : List (List Int)) : Option (List Int) :=
+  match chunks with
+  | [] => none
+  | _ :: rest => if rest = [] then none else some rest.flatten
+
 /-- Spec: the same expression evaluated in memory on the concatenated streams -/
 def evalMem (g : List NodeDef) : Nat → Nat → Option (List Int)
   | 0, _ => none
